@@ -580,7 +580,7 @@ func (s *State) evalBuiltin(node *ast.Builtin) object.Object {
 			val = object.String{Value: val.(object.Error).Value}
 		}
 		// (the value of a loop variable, not its live register)
-		return object.MakeQuad(ErrorKey, object.NativeBoolToBooleanObject(isError), object.ValueKey, object.CopyRegister(val))
+		return object.MakeQuad(ErrorKey, object.NativeBoolToBooleanObject(isError), object.ValueKey, object.Value(object.CopyRegister(val)))
 	case token.ERROR, token.PRINT, token.PRINTLN, token.LOG:
 		return s.evalPrintLogError(node)
 	case token.FIRST:
